@@ -365,7 +365,8 @@ fn run_transport(
     let mut next_token = START_TOKEN;
     #[cfg(metrics_verif)]
     metrics::verif::point("tcp.start.pre", &[buffer_size.map_or(-1, |b| b as i64)]);
-    let mut buffered_pmsgs = VecDeque::with_capacity(buffer_limit);
+    // Only pre-allocate when there is an actual limit: `buffer_limit` is `usize::MAX` for an unbounded buffer.
+    let mut buffered_pmsgs = buffer_size.map_or_else(VecDeque::new, VecDeque::with_capacity);
     #[cfg(metrics_verif)]
     metrics::verif::point("tcp.start.post", &[]);
 
